@@ -299,6 +299,13 @@ pub fn c13_cells<M: Machine>(m: M, be: &str, cells: &mut Cells, c: &VecCase) {
             cells.check(&cellname("vec128_storage", "into[u64;2]"), || { let x: [u64; 2] = st128(a).into(); x.to_vec() }, w64(a));
             cells.check(&cellname("vec128_storage", "eq"), || st128(a) == st128(b), a == b);
             cells.check(&cellname("vec128_storage", "eq-self"), || st128(a) == st128(a), true);
+            // operands differing in exactly one bit of one half (a comparison that looks at one half only would miss it)
+            let mut hi = a.to_vec();
+            hi[8 + (c.w as usize % 8)] ^= 1 << (c.w % 8);
+            cells.check(&cellname("vec128_storage", "ne-upper-half"), || st128(a) == st128(&hi), false);
+            let mut lo = a.to_vec();
+            lo[c.w as usize % 8] ^= 1 << ((c.w >> 3) % 8);
+            cells.check(&cellname("vec128_storage", "ne-lower-half"), || st128(a) == st128(&lo), false);
             cells.check(&cellname("vec128_storage", "default"), || by128(vec128_storage::default()), vec![0u8; 16]);
         }
     }
@@ -387,6 +394,9 @@ pub fn c13_cells<M: Machine>(m: M, be: &str, cells: &mut Cells, c: &VecCase) {
             let mut a2 = a.to_vec();
             a2[16 + (c.w as usize % 16)] ^= 1 << (c.w % 8);
             cells.check(&cellname("vec256_storage", "ne-upper-half"), || st256(a) == st256(&a2), false);
+            let mut a3 = a.to_vec();
+            a3[c.w as usize % 16] ^= 1 << ((c.w >> 4) % 8);
+            cells.check(&cellname("vec256_storage", "ne-lower-half"), || st256(a) == st256(&a3), false);
             cells.check(&cellname("vec256_storage", "default"), || by256(vec256_storage::default()), vec![0u8; 32]);
         }
     }
@@ -459,6 +469,9 @@ pub fn c13_cells<M: Machine>(m: M, be: &str, cells: &mut Cells, c: &VecCase) {
             let mut a2 = a.to_vec();
             a2[16 * (1 + (c.w as usize >> 8) % 3) + (c.w as usize % 16)] ^= 1 << (c.w % 8);
             cells.check(&cellname("vec512_storage", "ne-upper-lanes"), || st512(a) == st512(&a2), false);
+            let mut a3 = a.to_vec();
+            a3[c.w as usize % 16] ^= 1 << ((c.w >> 4) % 8);
+            cells.check(&cellname("vec512_storage", "ne-lowest-lane"), || st512(a) == st512(&a3), false);
             cells.check(&cellname("vec512_storage", "default"), || by512(vec512_storage::default()), vec![0u8; 64]);
         }
     }
